@@ -44,6 +44,11 @@ SCENARIOS = {
     'known/git-blame-vs-git-grep': (['git', 'blame', 'src/f.rs'], None, ['git', 'grep', 'x'], BLAME, 'GitBlame', 'GitGrep'),
     'known/git-grep-vs-git-blame': (['git', 'grep', '-n', 'fn'], None, ['git', 'blame', 'x.rs'], GIT_GREP_COLOR, 'GitGrep', 'GitBlame'),
     'known/rg-vs-none': (['rg', 'fn'], None, ['git', 'verif-neutral-parent'], RG_JSON, 'OtherGrep', 'None'),
+    # options whose evaluation consults the calling process while the configuration is built (word-diff detection)
+    'known/git-diff-word-diff-ln-vs-git-blame': (['--line-numbers', 'git', 'diff', '--word-diff'], None, ['git', 'blame', 'x.rs'], WORD_DIFF, 'GitDiff', 'GitBlame'),
+    'known/git-diff-word-diff-sbs-vs-none': (['--side-by-side', 'git', 'diff', '--color-words'], None, ['git', 'verif-neutral-parent'], WORD_DIFF, 'GitDiff', 'None'),
+    'known/git-show-file-vs-git-grep': (['git', 'show', 'HEAD:src/f.rs'], None, ['git', 'grep', 'x'], RUST_CODE, 'GitShow', 'GitGrep'),
+    'stdin/git-diff-word-diff-ln': (['--line-numbers'], WORD_DIFF, ['git', 'diff', '--word-diff'], None, None, 'GitDiff'),
 }
 
 _QUERIES = {}
@@ -239,6 +244,10 @@ def check_trace(name, trace):
                 return ('stale-answer', 'query returned %r but the cell holds %r' % (v, reg)), None
             if known_set and v != known_val:
                 return ('known-not-reported', 'after the known store a query returned %r' % v), None
+            if known and not v.startswith(known):
+                # delta launched the command itself: no query may ever be answered with anything else (an answer taken
+                # before the known store is cached by its consumer for the rest of the run)
+                return ('known-not-reported', 'delta launched the command itself (%s) but a query was answered %r (%s)' % (known, v, line)), None
     return None, {'queries': nq, 'bg_store': bg_store, 'known': known_val}
 
 
@@ -283,7 +292,7 @@ def EXHAUSTIVE(ctx):
 
 
 EXHAUSTIVE_SCOPE = ('every placement of the background store among the main thread\'s critical sections (known store, query 1..n) '
-                    'for each of the 10 scenarios, at gate granularity; jitter/unforced/TSan runs are sampled')
+                    'for each of the %d scenarios, at gate granularity; jitter/unforced/TSan runs are sampled') % len(SCENARIOS)
 
 
 def evaluate(name, r, label, reference_out=None):
@@ -334,8 +343,12 @@ def expected_behaviour(name, out):
         return 'src/main.rs' in text and '\x1b[' in text, 'grep output must be rendered as grep output'
     if name.startswith('known/git-blame') or name == 'stdin/git-blame':
         return 'abcd1234' in text or 'Ann' in text, 'blame output must be rendered as blame output'
-    if name == 'stdin/git-diff-word-diff':
-        return '[-old-]' in term.strip_escapes(text), 'word-diff lines must be shown as they are'
+    if 'word-diff' in name:
+        lines = term.strip_escapes(text).split('\n')
+        ok = 'same [-old-]{+new+} words' in lines and ' unchanged' in lines
+        return ok, 'word-diff lines must be shown as they are (first column kept, no line-number gutter)'
+    if name == 'known/git-show-file-vs-git-grep':
+        return '\x1b[' in text, 'git show REV:file output must be syntax-highlighted'
     return True, ''
 
 
